@@ -460,7 +460,7 @@ def run_task(task):
 
 
 def plan(tier, seed):
-    per_sweep, per_hyp = (2, 1500) if tier == "quick" else (8, 25000)
+    per_sweep, per_hyp = (2, 1500) if tier == "quick" else (8, 15000)
     hyps = [{"kind": "hyp", "n": per_hyp, "seed": seed * 1000 + w} for w in range(16)]
     fixed = [{"kind": "sweep_fixed", "index": i} for i in range(len(FIXED_SWEEPS))]
     drawn = [{"kind": "sweep_drawn", "n": per_sweep, "seed": seed * 1000 + 100 + w} for w in range(8)]
